@@ -127,9 +127,8 @@ def write_files(files: dict[str, Any] | None) -> list[str]:
                 content = bytes.fromhex(content["hex"])
             elif "rep" in content:  # {"rep": [byte, count]} compact big files
                 content = bytes([content["rep"][0]]) * content["rep"][1]
-            elif "pat" in content:  # {"pat": [seed, count]} deterministic pseudo-random bytes
-                seedv, count = content["pat"]
-                content = bytes(((i * 197 + seedv * 31 + (i >> 8) * 13) & 0xFF) for i in range(count))
+            elif "pat" in content:  # {"pat": [seed, count]} deterministic non-periodic-looking bytes
+                content = _pattern(*content["pat"])
         if isinstance(content, str):
             with open(path, "w", encoding="utf-8", newline="") as f:
                 f.write(content)
@@ -140,6 +139,15 @@ def write_files(files: dict[str, Any] | None) -> list[str]:
     return written
 
 
+_PAT = bytes(((i * 197 + 31 + (i >> 3) * 13) & 0xFF) for i in range(251))  # prime period
+
+
+def _pattern(seedv: int, count: int) -> bytes:
+    rot = seedv % 251
+    base = _PAT[rot:] + _PAT[:rot]
+    return (base * (count // 251 + 1))[:count]
+
+
 def file_bytes(content: Any) -> bytes:
     if isinstance(content, dict):
         if "hex" in content:
@@ -147,8 +155,7 @@ def file_bytes(content: Any) -> bytes:
         if "rep" in content:
             return bytes([content["rep"][0]]) * content["rep"][1]
         if "pat" in content:
-            seedv, count = content["pat"]
-            return bytes(((i * 197 + seedv * 31 + (i >> 8) * 13) & 0xFF) for i in range(count))
+            return _pattern(*content["pat"])
     if isinstance(content, str):
         return content.encode("utf-8")
     return bytes(content)
